@@ -1,15 +1,22 @@
 """Driver (fresh interpreter, emitted tree on sys.path): replay server fault scripts through the emitted sync and
-asyncio clients under virtual time and record RetryTrace events.
+asyncio gRPC clients and the emitted REST client under virtual time and record RetryTrace events.
 
 payload: {api, module, services: {proto service name: {class, snake}}, methods: {proto method name: snake},
           reply: full name of the reply type, request: {..}, unit: ticks per second,
           cases: [{id, sel: {svc, meth}, ovr: {rmode, r: {on, init, max, mult, codes, deadline}, timeout},
-                   script: [code..], jit: [num, den]}], modes: [sync, async]}
+                   script: [code..], jit: [num, den], transport: grpc | rest}], modes: [sync, async, rest]}
+          (grpc cases run in the modes sync and async, rest cases in the mode rest)
 result : {traces: [{id, mode, events, error}]}
 
+REST: nothing is sent.  `requests.Session.request` - the layer BELOW the AuthorizedSession the emitted transport
+creates - is replaced by a recorder that notes the `timeout` it is called with (one attempt per HTTP request) and
+answers from the script with a real `requests.Response`: fault code c -> the HTTP status api-core itself assigns to
+the exception class of c, OK -> 200 with the JSON of the reply message.
+
 Events are projections of what was observed from OUTSIDE the emitted code:
-  invoke  the arguments this driver passed                      {svc, meth, rmode, r_*, timeout}
+  invoke  the arguments this driver passed                      {svc, meth, transport, rmode, r_*, timeout}
   attempt the `timeout` kwarg of one invocation on the channel  {timeout}          (ticks, -1 = None)
+          (rest: the `timeout` of one requests.Session.request)
   fault   the status code the scripted server aborted with      {code}
   reply   the scripted server answered normally
   sleep   one sleep asked of the (virtual) clock                {asked, slept}     asked = upper bound given to
@@ -34,6 +41,7 @@ class Ctx:
         self.events = None
         self.script = []
         self.reply = pool.encode(pl['reply'], {'name': 'ok'})
+        self.reply_json = b'{"name": "ok"}'
 
     def ticks(self, x):
         if x is None:
@@ -51,6 +59,31 @@ class Ctx:
             raise lg.Abort(code)
         self.events.append(dict(ev='reply'))
         return [self.reply]
+
+    # HTTP side: stands for requests.Session.request
+    def http_request(self, session, method, url, **kw):
+        import requests
+        from google.api_core import exceptions as core_exceptions
+        import grpc
+        t = kw.get('timeout')
+        ok = t is None or (isinstance(t, (int, float)) and not isinstance(t, bool))
+        self.events.append(dict(ev='attempt', timeout=self.ticks(t) if ok else -9))
+        resp = requests.Response()
+        resp.url = url
+        resp.encoding = 'utf-8'
+        resp.headers['Content-Type'] = 'application/json'
+        resp.request = requests.Request(method, url).prepare()
+        if self.script:
+            code = self.script.pop(0)
+            self.events.append(dict(ev='fault', code=code))
+            status = core_exceptions.exception_class_for_grpc_status(getattr(grpc.StatusCode, code)).code
+            resp.status_code = int(status)
+            resp._content = ('{"error": {"code": %d, "message": "scripted", "status": "%s"}}' % (int(status), code)).encode()
+        else:
+            self.events.append(dict(ev='reply'))
+            resp.status_code = 200
+            resp._content = self.reply_json
+        return resp
 
     # channel side (list-like sink handed to record_channel)
     def append(self, e):
@@ -87,7 +120,8 @@ def call_kwargs(ctx, ovr, asyncio_):
 def invoke_event(c):
     o = c['ovr']
     r = o['r']
-    return dict(ev='invoke', svc=c['sel']['svc'], meth=c['sel']['meth'], rmode=o['rmode'], timeout=o['timeout'],
+    return dict(ev='invoke', svc=c['sel']['svc'], meth=c['sel']['meth'], transport=c.get('transport', 'grpc'),
+                rmode=o['rmode'], timeout=o['timeout'],
                 r_on=r['on'], r_init=r['init'], r_max=r['max'], r_mult=r['mult'], r_codes=sorted(r['codes']),
                 r_deadline=r['deadline'])
 
@@ -116,22 +150,38 @@ def main():
         ctx.script = list(c['script'])
         vc.reset(c['jit'][0] / c['jit'][1])
 
+    grpc_cases = [c for c in pl['cases'] if c.get('transport', 'grpc') == 'grpc']
+    rest_cases = [c for c in pl['cases'] if c.get('transport') == 'rest']
+
+    def run_sync(clients, cases, mode):
+        for c in cases:
+            begin(c)
+            err = None
+            fn = getattr(clients[c['sel']['svc']], pl['methods'][c['sel']['meth']])
+            try:
+                fn(request=dict(pl['request']), **call_kwargs(ctx, c['ovr'], False))
+                ctx.events.append(dict(ev='return'))
+            except Exception as e:
+                err = f'{type(e).__name__}: {e}'[:200]
+                ctx.events.append(raise_event(vc, ctx, e))
+            traces.append(dict(id=c['id'], mode=mode, events=ctx.events, error=err))
+
     try:
+        if 'rest' in pl['modes'] and rest_cases:
+            import requests
+            real = requests.Session.request
+            requests.Session.request = lambda session, method, url, **kw: ctx.http_request(session, method, url, **kw)
+            try:
+                clients = {svc: rt.rest_client(pl['module'], info['snake'], info['class'], '127.0.0.1:9')[1]
+                           for svc, info in pl['services'].items()}
+                run_sync(clients, rest_cases, 'rest')
+            finally:
+                requests.Session.request = real
         if 'sync' in pl['modes']:
             clients = {}
             for svc, info in pl['services'].items():
                 clients[svc] = rt.grpc_client(pl['module'], info['snake'], info['class'], srv.target, ctx)[1]
-            for c in pl['cases']:
-                begin(c)
-                err = None
-                fn = getattr(clients[c['sel']['svc']], pl['methods'][c['sel']['meth']])
-                try:
-                    fn(request=dict(pl['request']), **call_kwargs(ctx, c['ovr'], False))
-                    ctx.events.append(dict(ev='return'))
-                except Exception as e:
-                    err = f'{type(e).__name__}: {e}'[:200]
-                    ctx.events.append(raise_event(vc, ctx, e))
-                traces.append(dict(id=c['id'], mode='sync', events=ctx.events, error=err))
+            run_sync(clients, grpc_cases, 'sync')
         if 'async' in pl['modes']:
             async def amain():
                 clients, chans = {}, []
@@ -139,7 +189,7 @@ def main():
                     _, cl, ch = rt.grpc_client(pl['module'], info['snake'], info['class'], srv.target, ctx, asyncio_=True)
                     clients[svc] = cl
                     chans.append(ch)
-                for c in pl['cases']:
+                for c in grpc_cases:
                     begin(c)
                     err = None
                     fn = getattr(clients[c['sel']['svc']], pl['methods'][c['sel']['meth']])
